@@ -1,3 +1,4 @@
 prop("C04", files={"root": ["vf_c04_test.go", "vf_c05_test.go", "vf_c03_test.go", "vf_c02_test.go"] + EV}, shared={"root": J + ["vf_ids_test.go"]},
      assumptions=["reference content hash / redaction / event-ID computations transcribe the specification",
-                  "tampered events that the parser rejects outright are outside the property (clean rejection)"])
+                  "tampered events that the parser rejects outright are outside the property (clean rejection)"],
+     rapidfuzz=[('root', 'C04/content-hash', 45)])
